@@ -402,6 +402,22 @@ Theorem C18_api_totality_unknown_entry_rejected : forall (e c : String.string) o
 Proof. exact ApiTotalityProofs.api_unknown_entry_rejected. Qed.
 Print Assumptions C18_api_totality_unknown_entry_rejected.
 
+(* the bloom filter entry points since the repairs of leveldb/filter/bloom.go (C16_bloom_generate_total and
+   C16_bloom_contains_total are unconditional): for EVERY argument class NewBloomFilter, Add and Contains must return
+   without a huge allocation, and Generate must not panic for any bitsPerKey (only a nil Buffer is misuse; a huge
+   bitsPerKey may allocate up to the documented ceiling of 512 MiB) *)
+Theorem C18_api_bloom_must_return : forall c : String.string,
+  ApiTotality.outcome_allowed "filter.NewBloomFilter" c ApiTotality.oc_panic = false /\
+  ApiTotality.outcome_allowed "filter.NewBloomFilter" c ApiTotality.oc_alloc = false /\
+  ApiTotality.outcome_allowed "filter.Filter.Contains" c ApiTotality.oc_panic = false /\
+  ApiTotality.outcome_allowed "filter.Filter.Contains" c ApiTotality.oc_alloc = false /\
+  ApiTotality.outcome_allowed "filter.FilterGenerator.Add" c ApiTotality.oc_panic = false /\
+  (c <> "required argument nil" -> ApiTotality.outcome_allowed "filter.FilterGenerator.Generate" c ApiTotality.oc_panic = false) /\
+  (c <> "required argument nil" -> c <> "n huge" ->
+     ApiTotality.outcome_allowed "filter.FilterGenerator.Generate" c ApiTotality.oc_alloc = false).
+Proof. exact ApiTotalityProofs.api_bloom_must_return. Qed.
+Print Assumptions C18_api_bloom_must_return.
+
 (* non-vacuity: the repaired GetProperty class must return (a panic there is a mismatch); a documented panic is allowed;
    an out-of-order Append must be an error; rows are distinct and masks sane *)
 Example C18_api_totality_nonvacuous :
